@@ -150,14 +150,14 @@ def random_session(rng, M, n, T):
         pick = lambda extra=(): rng.choice(names + [unk] + list(extra))
         if r < 0.22 and fresh != unk:
             p = pick([0])
-            hist.append({'op': 'add_state', 'a': fresh if rng.random() < 0.9 else names[0],
+            hist.append({'op': 'add_state', 'a': fresh if (rng.random() < 0.9 or names[0] == unk) else names[0],
                          'b': rng.choice(sorted(KCLS)), 'c': p})
             T.add(fresh)
         elif r < 0.32:
             x = pick()
             hist.append({'op': 'remove_state', 'a': x, 'b': 0, 'c': 0})
         elif r < 0.45 and fresh != unk:
-            hist.append({'op': 'rename_state', 'a': pick(), 'b': rng.choice([fresh, names[0]]), 'c': 0})
+            hist.append({'op': 'rename_state', 'a': pick(), 'b': rng.choice([fresh] + [x for x in names[:1] if x != unk]), 'c': 0})
         elif r < 0.6:
             hist.append({'op': 'move_state', 'a': pick(), 'b': pick(), 'c': 0})
         elif r < 0.75:
